@@ -165,7 +165,9 @@ def tick (E : Env) (s : St) : St := { s with now := s.now + E.inc s.reads, reads
 /-- `if (stream) *stream << …` -/
 def emit (on : Bool) (d : Diag) (s : St) : St := { s with diag := s.diag ++ (if on then [d] else []) }
 
-def setUb (s : St) : St := { s with ub := true, stack := [], exc := none }
+/-- undefined behaviour reached (null `m_CurrentThread` dereferenced, dangling timer element): the
+    machine stops where it is -/
+def setUb (s : St) : St := { s with ub := true }
 
 /-- `ScriptThread::Stop()` -/
 def stopThread (s : St) (t : Tid) : St :=
@@ -389,6 +391,7 @@ def runFrame (E : Env) (s : St) (f : Frame) (rest : List Frame) : St :=
   | .ctxExec => { s with stack := rest }
 
 def step (E : Env) (s : St) : St :=
+  if s.ub then s else
   match s.stack with
   | [] => s
   | f :: rest =>
@@ -400,7 +403,7 @@ def run (E : Env) : Nat → St → St
   | 0, s => s
   | k + 1, s => run E k (step E s)
 
-def halted (s : St) : Bool := s.stack.isEmpty
+def halted (s : St) : Bool := s.stack.isEmpty || s.ub
 
 /-! ### host operations (each starts in a halted state and pushes the outermost frames) -/
 
